@@ -222,6 +222,11 @@ impl WorldA {
             ctx.stats.probe("runs_reusing_one_generator_per_group");
         }
         w.gen_groups(ctx);
+        if w.clients.len() > 96 {
+            // one OS thread per client is for small worlds; thousands of clients times 16 batch
+            // workers would exhaust the process's thread budget
+            w.client_threads = None;
+        }
         w
     }
 
